@@ -41,7 +41,7 @@ def cases(tier, seed, shard, nshards):
         yield _exec.mix_case(rng, i, **kw)
     from . import _sim
     for i in range(N_SIM[tier]):
-        yield _sim.random_sim_case(rng, kind="sim", small=True)
+        yield _sim.random_sim_case(rng, kind="sim", small=True, algos=_sim.ALGOS_PLUS)
     if tier == "thorough" and shard < 4:
         yield _sim.regression_case(shard)
 
